@@ -2379,6 +2379,8 @@ class ktensor:
             show_mode_titles = True
         if title is not None:
             show_title = True
+        # Plotting works on a copy and leaves the model as it is
+        self = self.copy()  # noqa: PLW0642
         if normalize:
             self.normalize(normtype=norm, sort=True)
 
